@@ -298,7 +298,12 @@ fn gen_wtrace(rng: &mut Rng, faults: bool) -> WTrace {
     let mut events = Vec::new();
     while events.len() < n {
         if p_intr > 0 && rng.chance(p_intr, 12) {
-            let burst = if rng.chance(1, 5) { rng.urange(2, 5) } else { 1 };
+            let burst = match rng.below(60) {
+                0..=11 => rng.urange(2, 5),
+                12 => rng.urange(6, 40),
+                13 if rng.chance(1, 3) => rng.urange(41, 300),
+                _ => 1,
+            };
             for _ in 0..burst {
                 events.push(WEv::Intr);
             }
